@@ -138,12 +138,41 @@ INJECTED = (InjectedStop, InjectedKey, InjectedIndex, InjectedType,
             InjectedAttr)
 
 
+class Returned(ValueError):
+    """An exception object a converter *returns* (an error taken from a
+    cell and handed on, a validation result): a value like any other - only
+    raising is failing."""
+
+
+_RETURN_EXC = [False]
+_FLAKY = [False]
+
+
 class Faults(object):
     def __init__(self, fail, kind='plain', lazy=False):
         self.fail = fail          # set of (rid, field)
         self.made = []
         self.cls = _KINDS[kind] or Injected
         self.lazy = lazy
+        # flaky mode: a failing cell fails the first time its callback is
+        # called and would succeed on a retry (a timeout, a cache miss): the
+        # callback did raise, so the policy applies all the same
+        self.flaky = _FLAKY[0]
+        self.seen = set()
+
+    def failing(self, rid, field):
+        if (rid, field) not in self.fail:
+            return False
+        if self.flaky:
+            if (rid, field) in self.seen:
+                return False
+            self.seen.add((rid, field))
+        return True
+
+    def ok(self, v):
+        if _RETURN_EXC[0]:
+            return Returned('ok', v)
+        return ('ok', v)
 
     def conv(self, field):
         def f(v, *row):
@@ -151,28 +180,28 @@ class Faults(object):
                 rid = row[0][0]     # pass_row=True: the record comes along
             else:
                 rid = _code(v) // 10
-            if (rid, field) in self.fail:
+            if self.failing(rid, field):
                 e = self.cls(rid, field)
                 self.made.append(e)
                 raise e
-            return ('ok', v)
+            return self.ok(v)
         return f
 
     def recfun(self, field):
         def f(rec):
             v = rec[field]
             rid = _code(v) // 10
-            if (rid, field) in self.fail:
+            if self.failing(rid, field):
                 e = self.cls(rid, field)
                 self.made.append(e)
                 raise e
-            return ('ok', v)
+            return self.ok(v)
         return f
 
     def rowmapper(self):
         def f(row):
             rid = row[0]
-            if (rid, 'row') in self.fail:
+            if self.failing(rid, 'row'):
                 e = self.cls(rid, 'row')
                 self.made.append(e)
                 raise e
@@ -185,7 +214,7 @@ class Faults(object):
 
             def cells():
                 yield rid
-                if (rid, 'row') in self.fail:
+                if self.failing(rid, 'row'):
                     e = Injected(rid, 'row')
                     self.made.append(e)
                     raise e
@@ -227,7 +256,8 @@ def _gen_case(rng, tier, g):
     form = FORMS[g % len(FORMS)]
     nmax = 3 if form in TWO_FIELD else 6
     n = rng.randint(0, nmax)
-    ev = rng.choice(['none', 'ERR', 'obj', 'none'])
+    # (falsy error values are values like any other)
+    ev = rng.choice(['none', 'ERR', 'obj', 'none', 'zero', 'empty', 'false'])
     where = [rng.random() < 0.6 for _ in range(n)]
     # natural-failure forms: which cells are of the failing kind is part of
     # the table (enumerated inside the case as well)
@@ -242,10 +272,18 @@ def _gen_case(rng, tier, g):
             else rng.choice(['int', 'int', 'tuple2', 'tuple3', 'list',
                              'str']) if form not in NATURAL
             else 'int',
-            'extra_col': rng.random() < 0.5 and form != 'convertnumbers'}
+            'extra_col': rng.random() < 0.5 and form != 'convertnumbers',
+            'flaky': rng.random() < 0.2,
+            # converters that succeed by returning an exception object
+            'returns_exc': form in ('convert1', 'convert2', 'convertdict',
+                                    'convertwhere', 'convertpassrow',
+                                    'convertall', 'fieldmap', 'fieldmap2')
+            and rng.random() < 0.2}
 
 
 _EV_OBJ = ('sentinel-errorvalue',)
+_EVS = {'none': None, 'ERR': 'ERR', 'obj': _EV_OBJ, 'zero': 0, 'empty': '',
+        'false': False}
 
 
 def _table(case, natural_fail=None):
@@ -270,7 +308,7 @@ def _build(e, case, fl, policy, mode, tbl):
     kw = {}
     if mode == 'arg':
         kw['failonerror'] = policy
-    ev = {'none': None, 'ERR': 'ERR', 'obj': _EV_OBJ}[case['errorvalue']]
+    ev = _EVS[case['errorvalue']]
     evkw = dict(kw)
     if case['errorvalue'] != 'none':
         evkw['errorvalue'] = ev
@@ -495,6 +533,9 @@ class _Mismatch(Exception):
 
 
 def _match_cell(got, want, fl, ev):
+    if _RETURN_EXC[0] and isinstance(want, tuple) and len(want) == 2 \
+            and want[0] == 'ok':
+        return type(got) is Returned and got.args == want
     if isinstance(want, tuple) and want and want[0] == 'EXC':
         if not isinstance(got, (Injected,) + INJECTED):
             return False
@@ -546,7 +587,7 @@ def run_case(case):
     import petl.config as config
     log = Log()
     form, n = case['form'], case['n']
-    ev = {'none': None, 'ERR': 'ERR', 'obj': _EV_OBJ}[case['errorvalue']]
+    ev = _EVS[case['errorvalue']]
     natural = form in NATURAL
     if form in TWO_FIELD:
         points = [(r, f) for r in range(n) for f in ('v', 'w')]
@@ -558,6 +599,8 @@ def run_case(case):
     fired = 0
     saved = config.failonerror
     _CELLKIND[0] = case.get('cellkind', 'int')
+    _RETURN_EXC[0] = bool(case.get('returns_exc'))
+    _FLAKY[0] = bool(case.get('flaky')) and case['consumers'] == 1
     try:
         # a decoy view of the same form, iterated first with another
         # errorvalue under policy False: a view's error handling must not
@@ -677,6 +720,8 @@ def run_case(case):
     finally:
         config.failonerror = saved
         _CELLKIND[0] = 'int'
+        _RETURN_EXC[0] = False
+        _FLAKY[0] = False
     return outcome('ok', digest=log.hexdigest(), steps=nruns,
                    probes={'form:' + form: 1, 'fault-points-x-policies-x-modes':
                            nruns, 'two-consumers': case['consumers'] - 1,
